@@ -4,12 +4,14 @@
   What is proved here holds for EVERY behaviour of the two backends (the `Runs` relation
   quantifies over all answers: values, any error status, a lost connection at any request) or,
   for the connection loop, for every fault plan of the runner.  The state-level clause — an
-  acknowledged write is never followed by a stale read — is proved for the fault-free runs
-  (C01/C02) and, under faults, decided by the correspondence on the fault grid with a
-  possible-values oracle (see the check's rule); it is not a theorem yet.
+  acknowledged write is never followed by a stale read — is proved below for the two-tier
+  orchestrators over pass-through handlers under every single fault of the property
+  (`C10_acked_write_*`, `C10_no_stale_read_after_ack`); for the chunked handler under the
+  orchestrators it is decided by the correspondence on the fault grid with a possible-values oracle.
 -/
 import Rend.Props.C11
 import Rend.Props.C12
+import Rend.Proofs.FaultAck
 
 namespace Rend.Props.C10
 open Rend Rend.Server
@@ -73,5 +75,53 @@ theorem C10_panic_closes (cf : Conf) (now : Nat) (fault : Option Fault) (fuel : 
     (hpanic : ((cf.orca ((parse cf.proto inp).cmd.getD .unknown)).runSt now fault st).1 = .error .panic) :
     (loop cf now fault (fuel + 1) inp st out).1.ending = .closed :=
   C12.C12_panic_closes cf now fault fuel inp st out hparse hpanic
+
+/-- **An acknowledged write under a fault is a correct write** (main port).  For every write
+    command, every state satisfying the cache invariant and every single fault of the property —
+    the connection to either tier cut before or after ANY request, or ANY true error status in
+    answer to it — if the client is told STORED / DELETED / TOUCHED then the single map accepted
+    the command, L2 is the map's new content, and the cache invariant holds: L1 does not hold
+    the value from before (a refused L1 write was compensated by removing the L1 entry). -/
+theorem C10_acked_write_main (now : Nat) (w : World) (tk : List Bytes) (c : Cmd) (hc : IsWrite c) (f : Fault)
+    (hf : TrueErr f) (hinv : CacheInv now w)
+    (hok : ((L1L2.step (Std.handler .l1) (Std.handler .l2) c).runSt now (some f) (fresh w tk)).1 = .ok ()) :
+    (Spec.step now w.l2 c).2 = .ok ∧
+    ((L1L2.step (Std.handler .l1) (Std.handler .l2) c).runSt now (some f) (fresh w tk)).2.2.w.l2 = (Spec.step now w.l2 c).1 ∧
+    CacheInv now ((L1L2.step (Std.handler .l1) (Std.handler .l2) c).runSt now (some f) (fresh w tk)).2.2.w :=
+  acked_write_is_correct now w tk c hc f hf hinv hok
+
+/-- The same on the batch port. -/
+theorem C10_acked_write_batch (now : Nat) (w : World) (tk : List Bytes) (c : Cmd) (hc : IsWrite c) (f : Fault)
+    (hf : TrueErr f) (hinv : CacheInv now w)
+    (hok : ((L1L2Batch.step (Std.handler .l1) (Std.handler .l2) c).runSt now (some f) (fresh w tk)).1 = .ok ()) :
+    (Spec.step now w.l2 c).2 = .ok ∧
+    ((L1L2Batch.step (Std.handler .l1) (Std.handler .l2) c).runSt now (some f) (fresh w tk)).2.2.w.l2 = (Spec.step now w.l2 c).1 ∧
+    CacheInv now ((L1L2Batch.step (Std.handler .l1) (Std.handler .l2) c).runSt now (some f) (fresh w tk)).2.2.w :=
+  batch_acked_write_is_correct now w tk c hc f hf hinv hok
+
+/-- **No stale value after an acknowledgement**: whatever fault struck the acknowledged write,
+    every later history of commands on both ports (with clock ticks and L1 losses) is answered
+    exactly as the single map answers it starting from the map AFTER the write. -/
+theorem C10_no_stale_read_after_ack (now : Nat) (w : World) (tk : List Bytes) (c : Cmd) (hc : IsWrite c) (f : Fault)
+    (hf : TrueErr f) (hinv : CacheInv now w)
+    (hok : ((L1L2.step (Std.handler .l1) (Std.handler .l2) c).runSt now (some f) (fresh w tk)).1 = .ok ())
+    (acts : List Act) (hacts : ActsTwoTier acts) (tk' : List Bytes) :
+    AllAgree (runActs now ((L1L2.step (Std.handler .l1) (Std.handler .l2) c).runSt now (some f) (fresh w tk)).2.2.w tk' acts)
+      (specActs now (Spec.step now w.l2 c).1 acts) := by
+  obtain ⟨_, h2, h3⟩ := acked_write_is_correct now w tk c hc f hf hinv hok
+  have := (history_refines acts now _ tk' hacts h3).1
+  rw [h2] at this
+  exact this
+
+/-- Non-vacuity: "out of memory" (0x82), "value too large" (0x03), "temporary failure" (0x86) and
+    "busy" (0x85) are true error statuses; "not found" is not. -/
+example : TrueErr ⟨.l1, 1, .status 0x82⟩ ∧ TrueErr ⟨.l2, 0, .status 0x03⟩ ∧ TrueErr ⟨.l1, 0, .status 0x86⟩ ∧
+    TrueErr ⟨.l2, 0, .status 0x85⟩ ∧ TrueErr ⟨.l1, 0, .cutAfter⟩ ∧ ¬ TrueErr ⟨.l1, 0, .status 0x01⟩ := by
+  refine ⟨⟨.noMem, by decide, by decide, by decide, by decide⟩, ⟨.valueTooBig, by decide, by decide, by decide, by decide⟩,
+    ⟨.tempFailure, by decide, by decide, by decide, by decide⟩, ⟨.busy, by decide, by decide, by decide, by decide⟩, trivial, ?_⟩
+  intro ⟨e, he, h1, _⟩
+  have : decodeError 0x01 = some .keyNotFound := by decide
+  rw [this] at he
+  exact h1 (Option.some.inj he).symm
 
 end Rend.Props.C10
